@@ -29,6 +29,9 @@ DIRECTED = [
     # counterexample of History_explicitmass.cfg, the code before fix d373db3), also when the object is mutated before the first use
     [("set_global", 0, ["reg", 1]), ("create", 1, ["slp", "P"]), ("strong_form", 1, [])],
     [("create", 1, ["idt", "P"]), ("create", 2, ["idt", "G"]), ("mutate_params", 0, ["reg", 1]), ("strong_form", 1, []), ("strong_form", 2, []), ("mass_matrix", 0, [])],
+    # FMM operators: the interface cache is keyed by the order; clear_fmm_cache in between (counterexample of History_fmmunkeyed.cfg first)
+    [("create", 1, ["fmm", "G"]), ("weak_form", 1, []), ("set_global", 0, ["reg", 1]), ("create", 2, ["fmm", "G"]), ("weak_form", 2, []), ("weak_form", 1, [])],
+    [("create", 1, ["fmm", "P"]), ("mutate_params", 0, ["reg", 1]), ("weak_form", 1, []), ("clear_fmm", 0, []), ("create", 2, ["fmm", "G"]), ("weak_form", 2, [])],
     # global changed between construction and first assembly, and after it
     [("create", 1, ["slp", "G"]), ("set_global", 0, ["reg", 1]), ("weak_form", 1, []), ("set_global", 0, ["reg", 4]), ("weak_form", 1, []), ("strong_form", 1, [])],
     [("create", 1, ["pot", "G"]), ("set_global", 0, ["reg", 1]), ("evaluate", 1, []), ("create", 2, ["pot", "G"]), ("evaluate", 2, []), ("evaluate", 1, [])],
@@ -37,7 +40,14 @@ DIRECTED = [
 
 def body():
     chk = common.Check(PID, "model_checking")
+    from harness import fake_exafmm
+
+    fake_exafmm.install()      # the exact stand-in backend of C17: operators created with assembler='fmm' take part in the histories
     api = common.use_repo()
+    import tempfile
+
+    _cwd, _tmpd = os.getcwd(), tempfile.mkdtemp(prefix="c18_")
+    os.chdir(_tmpd)            # the FMM interface creates ./.exafmm
     import numpy as np
     from harness import replay_history as rh
 
@@ -114,6 +124,10 @@ def body():
             call = what.split("(")[1].split(")")[0] if "(" in what else "?"
             chk.violation("history:%s" % call, "trace rejected by HistoryTrace: %s; history %s" % (what, calls), {"trace": t["events"]})
     chk.sample({"directed_history": DIRECTED[0], "recorded": traces[0]["events"] if traces else None})
+    fk = common.run_tlc("History", "History_fmmunkeyed.cfg", timeout=3000)
+    chk.add_tlc("History negative control (FMM interface cache without the quadrature order)", fk, note="must violate ExplicitHonoured")
+    if fk.ok or "ExplicitHonoured" not in str(fk.violated):
+        raise common.MachineryError("negative control History_fmmunkeyed.cfg did not violate ExplicitHonoured (got %s)" % fk.violated)
     # (4) second negative control: the code before fix d373db3 (mass matrix of strong_form always from the global object) must violate NoInterference
     em = common.run_tlc("History", "History_explicitmass.cfg", timeout=3000)
     chk.add_tlc("History negative control (explicit object ignored by the mass matrix)", em, note="must violate NoInterference")
@@ -130,6 +144,10 @@ def body():
             chk.violation("precision", "single-precision request differs from double by %.3g (relative)" % (np.abs(a - b).max() / np.abs(a).max()), {})
     except Exception as exc:
         chk.violation("precision", "%s: %s" % (type(exc).__name__, exc), {})
+    os.chdir(_cwd)
+    import shutil
+
+    shutil.rmtree(_tmpd, ignore_errors=True)
     chk.cov["rule"] = "one recorded trace per history (directed + TLC simulation behaviours with >= 2 result-returning calls); every trace validated by TLC"
     return chk.finish()
 
